@@ -335,7 +335,13 @@ func registerIntrinsics(p *Program) {
 		"(*log.Logger)", "log.Print", "(*log/slog", "log/slog",
 	}
 	registerStdIntrinsics(p)
+	for _, f := range extraIntrinsics {
+		f(p)
+	}
 }
+
+// extraIntrinsics lets additional files (intr_*.go) register models from their init().
+var extraIntrinsics []func(p *Program)
 
 func (e *Exec) implementsError(t types.Type) bool {
 	if t == e.prog.runtimeErrType || t == types.Type(e.prog.opaqueErrType) {
